@@ -188,7 +188,7 @@ def run(res, tier, seed):
     cases = poison_cases()
     rnd = random.Random(seed * 9576890 + 14)
     # random positions in random tables with ragged rows (field-count warnings with record numbers; full scans only)
-    for _ in range(1500 if tier == 'quick' else 40000):
+    for _ in range(5000 if tier == 'quick' else 40000):
         A = qgen.gen_table(rnd, nrows=rnd.randint(0, 6), ncols=rnd.randint(1, 3), ragged=0.4, none_p=0.1)
         q = rnd.choice([{'items': ['star']}, {'items': [{'e': ['nf']}]}, {'items': [{'e': ['a', 0]}], 'where': ['ne', ['a', 0], ['lit', 'x']]},
                         {'update': True, 'items': [], 'assigns': [[0, ['lit', 'u']]]}])
